@@ -425,3 +425,147 @@ func frontierFirst(f []c06State) []int {
 	}
 	return nil
 }
+
+// TestVerifC06Seq: every operation sequence up to a depth over a 12-operation alphabet, WITHOUT
+// state merging (LSM-internal state such as shadowed versions and tombstones is invisible in the
+// key space, so merging by visible state could hide path-dependent behaviour). The battery runs
+// after the last operation of every sequence (every prefix is itself a sequence).
+func TestVerifC06Seq(t *testing.T) {
+	r := vh.New("store-sequences")
+	defer r.Write()
+	sp := makeProbes()
+	a1 := c06Sig(sp, "A", 0, 0, 0)
+	a1b := a1
+	a1b.Name = "A-same-hashes-new-name"
+	a2 := c06Sig(sp, "A", 1, 1, 1)
+	a3 := c06Sig(sp, "A", 0, 0, 1) // only entropy/tolerance change
+	b1 := c06Sig(sp, "B", 0, 0, 0) // shares both hashes with A.v1
+	ops := []storeOp{
+		{Kind: "add", Sigs: []detection.Signature{a1}, Name: "Add(A.v1)"},
+		{Kind: "add", Sigs: []detection.Signature{a1b}, Name: "Add(A.v1-renamed)"},
+		{Kind: "add", Sigs: []detection.Signature{a2}, Name: "Add(A.v2)"},
+		{Kind: "add", Sigs: []detection.Signature{a3}, Name: "Add(A.v3-entropy-only)"},
+		{Kind: "add", Sigs: []detection.Signature{b1}, Name: "Add(B.v1)"},
+		{Kind: "batch", Sigs: []detection.Signature{a2, a1}, Name: "AddBatch(A.v2,A.v1)"},
+		{Kind: "delete", ID: "A", Name: "Delete(A)"},
+		{Kind: "markfp", ID: "A", Name: "MarkFalsePositive(A)"},
+		{Kind: "rebuild", Name: "RebuildIndexes"},
+		{Kind: "flush", Name: "Checkpoint"},
+		{Kind: "compact", Name: "Compact"},
+		{Kind: "reopen", Name: "Close+Reopen"},
+	}
+	depth := 4
+	if vh.Thorough() {
+		depth = 6
+	}
+	mem := vfs.NewMem()
+	VerifFS = mem
+	defer func() { VerifFS = nil }()
+	idPool := []string{"A", "B", "missing"}
+	names := func(seq []int) []string {
+		var n []string
+		for _, i := range seq {
+			n = append(n, ops[i].Name)
+		}
+		return n
+	}
+	run := 0
+	outcomes := map[string]bool{}
+	eval := func(seq []int) bool {
+		run++
+		dir := fmt.Sprintf("/s/r%d", run)
+		defer mem.RemoveAll(dir)
+		s, err := NewPebbleScanner(dir, DefaultPebbleScannerOptions())
+		if err != nil {
+			r.Fail("open: %v", err)
+			return false
+		}
+		m := newRef()
+		for i, oi := range seq {
+			if msg := applyStoreOp(&s, dir, m, ops[oi]); msg != "" {
+				if i == len(seq)-1 {
+					r.Violate("sequence/"+strings.Join(names(seq), ">"), msg, map[string]interface{}{"path": names(seq)})
+				}
+				if s != nil {
+					s.Close()
+				}
+				return false // prefixes were already reported when they were the sequence
+			}
+		}
+		defer s.Close()
+		r.Eval()
+		bad := battery(s, m, sp, idPool, "")
+		if len(bad) > 0 {
+			r.Violate("sequence/"+strings.Join(names(seq), ">"), strings.Join(bad, "\n"), map[string]interface{}{"path": names(seq)})
+			return false
+		}
+		k := strings.Join(dumpPhysical(s, true), "\n")
+		if !outcomes[k] {
+			outcomes[k] = true
+		}
+		r.Nontrivial(strings.Join(names(seq), ">"))
+		if run%7919 == int(vh.Seed()%7919) {
+			r.Sample(map[string]interface{}{"sequence": names(seq)})
+		}
+		return true
+	}
+	if vh.ReplayPath() != "" {
+		var rp struct {
+			Path []string `json:"path"`
+		}
+		if err := vh.LoadReplay(&rp); err != nil {
+			r.Fail("replay: %v", err)
+			return
+		}
+		var seq []int
+		for _, n := range rp.Path {
+			for i, o := range ops {
+				if o.Name == n {
+					seq = append(seq, i)
+				}
+			}
+		}
+		eval(seq)
+		return
+	}
+	var rec func(seq []int)
+	rec = func(seq []int) {
+		if r.Expired() {
+			return
+		}
+		ok := true
+		if len(seq) > 0 {
+			ok = eval(seq)
+		}
+		if !ok || len(seq) == depth {
+			return
+		}
+		for i := range ops {
+			rec(append(seq, i))
+		}
+	}
+	top := 0
+	for i := range ops {
+		for j := range ops {
+			top++
+			if !vh.Mine(top) {
+				continue
+			}
+			if j == 0 && vh.Mine(i*len(ops)+1) {
+				// the length-1 sequence is evaluated by the shard that owns (i,0)
+			}
+			rec([]int{i, j})
+		}
+	}
+	sh, _ := vh.Shard()
+	if sh == 0 {
+		for i := range ops {
+			eval([]int{i})
+		}
+	}
+	r.Max("max_depth", int64(depth))
+	r.Count("distinct_visible_end_states", int64(len(outcomes)))
+	r.Count("transitions", r.Evaluations)
+	r.Count("traces_validated_against_impl", r.Evaluations)
+	r.Count("states", int64(len(outcomes)))
+}
